@@ -1,6 +1,6 @@
 /-
 Model of the client-facing request machine of `bqskit/runtime/detached.py`
-(`DetachedServer`) as it is after the `fix:` commit eb84cdb, of the run loop of
+(`DetachedServer`) as it is after the `fix:` commits eb84cdb and 3a23d26, of the run loop of
 `bqskit/runtime/base.py` (`ServerBase.run`: an exception in a handler ->
 `handle_system_error` -> `handle_shutdown`), of the error path
 worker -> manager -> server (`worker.py:_try_step_next_ready_task`,
@@ -251,6 +251,12 @@ def routeUp (s : Srv) (m : Mid) (mk : Conn → Out) : Except Err Srv :=
     | none => .error .keyError
     | some (_, c) => .ok (s.emit (mk c))
 
+/-- `handle_error` (tuple payload), after fix 3a23d26:
+`if tid not in self.mailbox_to_task_dict or tid not in self.mailboxes: return` -/
+def handleError (s : Srv) (m : Mid) (msg : Nat) : Except Err Srv :=
+  if (get? s.m2t m).isNone || (get? s.boxes m).isNone then .ok s
+  else routeUp s m (fun c => .errorTo c msg)
+
 def handleConnect (s : Srv) (c : Conn) : Except Err Srv :=
   .ok ((s.emit .downImportPath).emit (.ready c))
 
@@ -266,7 +272,7 @@ def step (s : Srv) (e : Ev) : Except Err Srv :=
   | .cancel c t => handleCancel s c t
   | .disconnect c => handleDisconnect s c
   | .result m v => handleResult s m v
-  | .error m msg => routeUp s m (fun c => .errorTo c msg)
+  | .error m msg => handleError s m msg
   | .log m msg => routeUp s m (fun c => .logTo c msg)
 
 /-- `handle_system_error` + `handle_shutdown` as far as clients see it. -/
@@ -385,9 +391,10 @@ def spec (a : Abs) : Req → Abs × List Reply
     | _ => (a, [])
   | .error none _ => (a, [])
   | .error (some t) msg =>
-    match (a.task t).owner with
-    | some o => (a, [.errorTo o msg])
-    | none => (a, [])
+    match a.task t with
+    | .running o _ => (a, [.errorTo o msg])
+    | .done o _ => (a, [.errorTo o msg])
+    | _ => (a, [])             -- cancelled, delivered, unknown: discarded
   | .log none _ => (a, [])
   | .log (some t) msg =>
     match (a.task t).owner with
@@ -419,8 +426,21 @@ def Out.reply? : Out → Option Reply
 
 def clientReplies (out : List Out) : List Reply := out.filterMap Out.reply?
 
+def Reply.isClose : Reply → Bool
+  | .close _ => true
+  | _ => false
+
 def Reply.conn : Reply → Conn
   | .status c _ | .cancelAck c | .errorTo c _ | .resultTo c _ | .logTo c _ | .ready c | .close c => c
+
+/-- What the outgoing thread really writes of a handler's client-visible effects:
+`send_outgoing` skips connections that are closed when it looks, and it looks after the handler
+returned (with the real thread: the reply to a bad request was written in 0 of 2000 runs).  So a
+message put for `c` by a handler that then closes `c` is never written. -/
+def keepWritten (rs : List Reply) : List Reply :=
+  rs.filter (fun r => r.isClose || !(rs.contains (.close r.conn)))
+
+def writtenReplies (out : List Out) : List Reply := keepWritten (clientReplies out)
 
 /-! ### error bubbling: worker -> manager* -> server, and the client's receive loop -/
 
@@ -507,18 +527,49 @@ def recvHandle : List CMsg → Option Reply → COut
 
 /-- outcome of `Compiler._recv_log_error_until_empty` (run before every request is sent) -/
 inductive PreOut where
-  | clean                     -- pipe empty: the request goes out
+  | clean                     -- nothing but LOG records were pending: the request goes out
   | raised (msg : Nat)        -- a pending ERROR: RuntimeError(payload)
-  | attributeError            -- a pending LOG: `payload.name` on pickled bytes
   | unexpected                -- any other pending message: RuntimeError('Unexpected message type')
 deriving DecidableEq, Repr
 
-/-- `_recv_log_error_until_empty` as it is: the LOG branch reads `payload.name` although the
-runtime ships `pickle.dumps(record)` (known finding), so the first pending message decides. -/
+/-- `_recv_log_error_until_empty` after fix 131dac7: pending LOG records are unpickled and
+emitted like in the receive loop, the first other pending message decides. -/
 def preDrain : List CMsg → PreOut
   | [] => .clean
-  | .log _ :: _ => .attributeError
+  | .log _ :: rest => preDrain rest
   | .error m :: _ => .raised m
   | .other _ :: _ => .unexpected
+
+/-- what the caller of `Compiler._send_recv` gets (status / result / cancel): every exception
+below it - the RuntimeError of an ERROR message included - is replaced by
+`RuntimeError('Server connection unexpectedly closed.') from e` and the connection is dropped;
+the original text survives only as `__cause__`. -/
+inductive ApiOut where
+  | returned (r : Reply)
+  | wrapped (cause : Option Nat)   -- top-level text is the fixed string; `cause` = ERROR text if any
+  | blocked
+deriving DecidableEq, Repr
+
+/-- `_send_recv` with `pending` messages in the pipe when the call starts and `arriving`
+messages after the request was sent -/
+def sendRecv (pending arriving : List CMsg) : ApiOut :=
+  match preDrain pending with
+  | .raised m => .wrapped (some m)
+  | .unexpected => .wrapped none
+  | .clean =>
+    match recvHandle arriving none with
+    | .returned r => .returned r
+    | .raised m => .wrapped (some m)
+    | .blocked => .blocked
+
+/-- which exceptions of `conn.send` the outgoing thread (`ServerBase.send_outgoing`) survives -/
+inductive SendExc where
+  | eof | connectionReset | brokenPipe | otherOSError
+deriving DecidableEq, Repr
+
+/-- `except (EOFError, ConnectionResetError): self.handle_disconnect(conn); continue` -/
+def outgoingSurvives : SendExc → Bool
+  | .eof | .connectionReset => true
+  | .brokenPipe | .otherOSError => false
 
 end BqVerif.Server
